@@ -104,9 +104,25 @@ func (p *Program) calledOnlyFromIn(pkgRel string, seeds ...string) map[*types.Fu
 // type (‹Object›, ‹Hook›, …), so that a guard can be compared with an expected form without depending on
 // what a maintainer chose to call the variable. Package-level objects, fields, methods and constants keep
 // their names. Forms it does not know are rendered by types.ExprString.
+// canonBody: when set, canonStr renders a local that is defined exactly once in this body by a call or a
+// selector (geo := o.Geo()) as that definition — the name of a repeated expression is not a different guard.
+var canonBody ast.Node
+
 func canonStr(info *types.Info, e ast.Expr) string {
 	switch x := e.(type) {
 	case *ast.Ident:
+		if canonBody != nil {
+			if v := valueOf(info, canonBody, x); v != ast.Expr(x) {
+				switch ast.Unparen(v).(type) {
+				case *ast.CallExpr, *ast.SelectorExpr:
+					body := canonBody
+					canonBody = nil // one level
+					r := canonStr(info, v)
+					canonBody = body
+					return r
+				}
+			}
+		}
 		if v, ok := info.ObjectOf(x).(*types.Var); ok && !v.IsField() && v.Parent() != nil && v.Pkg() != nil && v.Parent() != v.Pkg().Scope() {
 			t := v.Type()
 			for {
